@@ -8,16 +8,28 @@ except ImportError:
         return -1e-9 < a - b < 1e-9
 
 
-def quadraticRoots(a, b, c):
-    """Returns real roots of at^2 + bt + c = 0 if 0 < root < 1"""
+def quadraticRoots(a, b, c, limited=True):
+    """Returns real roots of at^2 + bt + c = 0 if 0 <= root <= 1"""
     roots = []
-    if a != 0.0 and b * b - 4 * a * c > 0.0:
-        x = -b / (2 * a)
-        y = sqrt(b * b - 4 * a * c) / (2 * a)
-        t1 = x - y
-        if 0.0 <= t1 <= 1.0:
-            roots.append(t1)
-        t2 = x + y
-        if 0.0 <= t2 <= 1.0:
-            roots.append(t2)
+    if a == 0.0:
+        # Not a quadratic: solve bt + c = 0
+        if b != 0.0:
+            t = -c / b
+            if not limited or 0.0 <= t <= 1.0:
+                roots.append(t)
+        return roots
+    if b * b - 4 * a * c > 0.0:
+        # Numerically stable form of the quadratic formula: no cancellation
+        # when a (or c) is tiny compared to b
+        sd = sqrt(b * b - 4 * a * c)
+        if b >= 0:
+            q = -(b + sd) / 2
+        else:
+            q = -(b - sd) / 2
+        found = [q / a]
+        if q != 0:
+            found.append(c / q)
+        for t in sorted(found):
+            if not limited or 0.0 <= t <= 1.0:
+                roots.append(t)
     return roots
